@@ -220,6 +220,9 @@ def encodeImmDataTransfer (opt : Nat) (s : Instr) : Instr :=
   if inR s.cons (c_NEG32BIT + 1) c_NEG64BIT && band s.cons c_NEG32BIT_CHECK &&
      (band s.opd0.reg c_reg64 || s.memDisp) then
     { s with key := s.key + 1, cons := s.cons &&& c_MAX_UNSIGNED_32BIT, reducedImm := true }
+  else if s.memDisp && s.cons > c_MAX_UNSIGNED_32BIT then
+    -- a memory destination only has the imm32 form: next row, value truncated (fix 4fe4638)
+    { s with key := s.key + 1, cons := s.cons &&& c_MAX_UNSIGNED_32BIT }
   else
     let s := dtNeg32 s
     dtOpOffset (effNasm opt s) (dtSelect (effNasm opt s) s)
